@@ -6,17 +6,29 @@ CGRID = [1e-9, 5e-7, 2e-5, 1e-3]        # oligo, mol/l   (1 nM .. 1 mM)
 NAGRID = [1e-3, 5e-2, 0.2, 1.0]         # sodium         (1 mM .. 1 M)
 MGGRID = [0.0, 1.5e-3, 0.1]             # magnesium      (0 .. 100 mM)
 
+RESOLUTION = 1e-9   # relative separation of a log argument above which the judge demands a STRICT increase (Driver/C19.lean)
+
 RULE = ("grid cases: every A/C/G/T sequence of length 2..Lf on the full 4x4x3 grid of (oligo, Na, Mg) = "
         "(1e-9,5e-7,2e-5,1e-3) x (1e-3,5e-2,0.2,1) x (0,1.5e-3,0.1) mol/l and every sequence of length Lf+1..Ls on a 2x2x2 "
         "sub-grid of adjacent grid values that rotates with the sequence index (quick: Lf=6, Ls=7 plus a seeded 1-in-64 "
-        "sample of length 8; thorough: Lf=8, i.e. all 87376 sequences of length 2..8 on the full grid, 4.2 million calls); random axis/grid cases "
-        "(length log-uniform to 200, random letter case, one axis of 3-6 values at least 5% apart through a random point, "
-        "or a random 2x2x2 grid); pt cases = one random sequence in random case (25% self-complementary) at two random "
-        "conditions (log-uniform oligo and Na, Mg = 0 in 30%) evaluated as given, upper-cased and lower-cased; mt cases = "
-        "MeltingTemp / SantaLucia(defaults) / MarmurDoty on every sequence of length 1..Lm (quick 5, thorough 6) and on "
-        "random sequences. non-trivial = sequence of length >= 2 (at least one neighbour pair) and, for grid cases, >= 2 "
-        "grid points; distinct by case text. Sequences with other letters, the empty sequence and concentrations outside "
-        "the ranges are run for correspondence only (not judged).")
+        "sample of length 8; thorough: Lf=8, i.e. all 87376 sequences of length 2..8 on the full grid, 4.2 million calls); "
+        "every sequence of length 2..Lc (quick 5, thorough 7) once more in random letter case on a sub-grid; "
+        "random axis/grid cases (length log-uniform to 200, one axis of 3-6 values at least 5% apart through a random "
+        "point, or a random 2x2x2 grid); CLOSE axis cases: 2-4 ascending values on one axis whose successive separations "
+        "(relative change of the log argument C resp. Na+140Mg) are log-uniform from 1 ulp (1e-17) to 5% (quick 3000, "
+        "thorough 120000 cases, i.e. > 10^5 adjacent pairs above and > 10^5 below the resolution 1e-9); pt cases = one "
+        "random sequence at two conditions evaluated as given, upper-cased and lower-cased, the two conditions either "
+        "independent random draws or (close pt) coordinate-wise ordered with 1 ulp..5% steps on a random subset of the axes "
+        "in random order; mt cases = MeltingTemp / SantaLucia(defaults) / MarmurDoty on every sequence of length 1..Lm "
+        "(quick 5, thorough 6), on random sequences and on one shuffled sequence per base composition (G+C count, length) "
+        "for lengths 9..200 (thorough all 20k, quick a 1-in-8 sample). Random sequences: 25% exactly self-complementary, 15% one "
+        "substitution (or one inserted middle base) away from self-complementary with the mismatch in the middle, at an "
+        "end or anywhere, the rest uniform; letter case random / mirror-symmetric / all upper / all lower. Conditions: "
+        "oligo and Na log-uniform over the ranges, Mg = 0 (30%), log-uniform 1e-9..0.1 (35%), log-uniform 1e-5..0.1 (21%) or "
+        "uniform (14%). Judged monotonicity: every axis-adjacent pair of a grid case and every ordered pair of a pt case: "
+        "never decreasing, strictly increasing when the separation is >= 1e-9. non-trivial = sequence of length >= 2 "
+        "(at least one neighbour pair) and, for grid cases, >= 2 grid points; distinct by case text. Sequences with other "
+        "letters, the empty sequence and concentrations outside the ranges are run for correspondence only (not judged).")
 EXHAUSTIVE = {"quick": False, "thorough": True}
 TRUSTED_BASE = [
     "IEEE-754 binary64 and math.Log: the theorems are about exact real arithmetic (Mathlib Real.log); the Float instance of "
@@ -26,13 +38,28 @@ TRUSTED_BASE = [
     "(then validated by the correspondence on every enumerated sequence)",
     "ASCII restriction: Go byte/rune behaviour on non-ASCII input is outside the model",
 ]
-ASSUMPTIONS = ["inputs are ASCII", "concentrations are finite positive binary64 values in the stated ranges"]
+ASSUMPTIONS = ["inputs are ASCII", "concentrations are finite positive binary64 values in the stated ranges",
+               "binary64 reading of 'strictly increases': never decreasing for any ordered pair of conditions; strictly "
+               "increasing when a log argument (C, or Na + 140 Mg) grows by a relative 1e-9 or more (below that float64 "
+               "results tie; ties are counted in the class histogram as '-tie')",
+               "for the float64 reading of weak monotonicity via tm_weak_mono_any_arith: IEEE-754 round-to-nearest + - * / "
+               "and Go's math.Log are monotone (MonoArith in Lemmas/Thermo.lean)"]
 PARTIAL = [
-    "All theorems are about exact real arithmetic (the generic model instantiated at the reals with Real.log). That the "
-    "float64 evaluation in Go stays within tolerance of the formula and remains strictly monotone is NOT proved (Lean's "
-    "Float is opaque to the kernel); it is supported only by the grid / random correspondence and the judge, which checks "
-    "strict monotonicity of the real float64 results between adjacent grid points and between random conditions at "
-    "least 5% apart.",
+    "Every numeric clause is PROVED for the generic model over exact real arithmetic (Real.log) and only SAMPLED for "
+    "float64 (Lean's Float is opaque to the kernel; no theorem relates the binary64 instance to the real one): "
+    "(i) 'dH, dS are the nearest-neighbour sums plus the penalty and salt terms' - float64 results within 1e-9 absolute of "
+    "the exact rational dH / of dS0 + 0.368(N-1)ln(Na+140Mg) on all generated cases; (ii) 'Tm = 1000 dH/(dS + R ln(C/f)) - "
+    "273.15' - within 1e-9 relative; (iii) 'Tm strictly increases with oligo, Na, Mg' - over the reals a theorem on the whole "
+    "range (tm_mono_oligo/na/mg with regime); for float64 it is FALSE as stated (conditions a few ulp apart tie, e.g. "
+    "ACGATGGCAGTAGCATGC at C = 5e-7 and C + 5 ulp) and the judge checks instead: no decrease for any ordered pair, strict "
+    "increase when the relative separation of the log argument is >= 1e-9 (bound derived in Driver/C19.lean: Tm moves by "
+    ">= 0.1*sep K against <= 1e-12 K of rounding; confirmed on > 10^5 close pairs above the bound per thorough run, none "
+    "tying). Weak monotonicity is additionally a THEOREM for every arithmetic whose + - * / log are monotone, under sign "
+    "conditions on the computed values (tm_weak_mono_any_arith; consistent: monotone_arith_real) - that float64 with Go's "
+    "math.Log is such an arithmetic is an assumption; (iv) MarmurDoty: proved over the reals, float64 compared bit-exactly (all intermediate values are small "
+    "integers). NOT partial: case independence, concentration independence of dH and MeltingTemp = SantaLucia(defaults) are "
+    "proved for every number type, hence for the binary64 instance of the model itself; the table lemmas are decided on "
+    "the regenerated table.",
 ]
 
 
@@ -63,21 +90,67 @@ def logu(r, lo, hi):
     return math.exp(r.uniform(math.log(lo), math.log(hi)))
 
 
+def rand_mg(r):
+    u = r.random()
+    if u < 0.30:
+        return 0.0
+    if u < 0.65:
+        return logu(r, 1e-9, 0.1)      # includes (0, 1e-5)
+    if u < 0.86:
+        return logu(r, 1e-5, 0.1)
+    return r.uniform(0, 0.1)
+
+
 def rand_cond(r):
     c = logu(r, 1e-9, 1e-3)
     na = logu(r, 1e-3, 1.0)
-    mg = 0.0 if r.random() < 0.3 else (logu(r, 1e-5, 0.1) if r.random() < 0.7 else r.uniform(0, 0.1))
+    mg = rand_mg(r)
     return min(max(c, 1e-9), 1e-3), min(max(na, 1e-3), 1.0), min(mg, 0.1)
+
+
+def near_selfcomp(r, n):
+    """one substitution (even length) or one inserted middle base (odd length) away from self-complementary"""
+    h = randword(r, ACGT, max(2, n // 2))
+    w = list(h + rc(h))
+    if r.random() < 0.2:
+        w.insert(len(h), r.choice(ACGT))           # odd length: can never be self-complementary
+        return "".join(w)
+    u = r.random()
+    if u < 0.4:
+        i = len(h) - 1 + r.randrange(2)            # the two middle positions
+    elif u < 0.7:
+        i = r.choice([0, 1, len(w) - 2, len(w) - 1])
+    else:
+        i = r.randrange(len(w))
+    w[i] = r.choice([x for x in ACGT if x != w[i]])
+    return "".join(w)
 
 
 def rand_seq(r, maxlen=200, minlen=2):
     n = loglen(r, minlen, maxlen)
-    if r.random() < 0.25:
+    u = r.random()
+    if u < 0.25:
         h = randword(r, ACGT, max(1, n // 2))
-        w = h + rc(h)
-    else:
-        w = randword(r, ACGT, n)
-    return w
+        return h + rc(h)
+    if u < 0.40 and n >= 4:
+        return near_selfcomp(r, n)
+    return randword(r, ACGT, n)
+
+
+def symcase(r, s):
+    """a letter-case pattern that is mirror-symmetric: case(i) = case(N-1-i)"""
+    n = len(s)
+    up = [r.random() < 0.5 for _ in range((n + 1) // 2)]
+    return "".join(c.upper() if up[min(i, n - 1 - i)] else c.lower() for i, c in enumerate(s))
+
+
+def anycase(r, s):
+    u = r.random()
+    if u < 0.5:
+        return randcase(r, s)
+    if u < 0.75:
+        return symcase(r, s)
+    return s.upper() if u < 0.87 else s.lower()
 
 
 def axis_values(r, lo, hi, k, zero_ok=False):
@@ -91,10 +164,55 @@ def axis_values(r, lo, hi, k, zero_ok=False):
     return [lo, hi]
 
 
+def step_up(r, x, scale, hi):
+    """the next value above x: x + scale*rho with rho log-uniform in [1e-17, 5e-2] (at least one ulp), capped at hi"""
+    rho = 10 ** r.uniform(-17, math.log10(0.05))
+    y = x + scale * rho
+    if y <= x:
+        y = math.nextafter(x, math.inf)
+    return min(y, hi)
+
+
+def close_axis(r, k):
+    """(axis, values, fixed condition): k ascending values on one axis, successive separations of the log argument
+    log-uniform from 1 ulp to 5%"""
+    c, na, mg = rand_cond(r)
+    axis = r.randrange(3)
+    if axis == 0:
+        c = min(c, 1e-3 / 1.2)
+        vs = [c]
+        for _ in range(k - 1):
+            vs.append(step_up(r, vs[-1], vs[-1], 1e-3))
+    elif axis == 1:
+        na = min(na, 1.0 / 1.2)
+        vs = [na]
+        for _ in range(k - 1):
+            vs.append(step_up(r, vs[-1], vs[-1] + 140 * mg, 1.0))
+    else:
+        mg = min(mg, 0.08)
+        vs = [mg]
+        for _ in range(k - 1):
+            vs.append(step_up(r, vs[-1], (na + 140 * vs[-1]) / 140, 0.1))
+    vs = sorted(set(vs))
+    return axis, vs, (c, na, mg)
+
+
+def close_cond(r, c, na, mg):
+    """a condition >= (c, na, mg) coordinate-wise, 1 ulp .. 5% above it on a random non-empty subset of the axes"""
+    while True:
+        pick = [r.random() < 0.6 for _ in range(3)]
+        if any(pick):
+            break
+    c2 = step_up(r, c, c, 1e-3) if pick[0] else c
+    na2 = step_up(r, na, na + 140 * mg, 1.0) if pick[1] else na
+    mg2 = step_up(r, mg, (na + 140 * mg) / 140, 0.1) if pick[2] else mg
+    return c2, na2, mg2
+
+
 def cases(seed, tier):
     r = rng(seed, "C19")
     quick = tier == "quick"
-    Lf, Ls, Lm = (6, 7, 5) if quick else (8, 8, 6)
+    Lf, Ls, Lm, Lc = (6, 7, 5, 5) if quick else (8, 8, 6, 7)
     full = ["grid", None, blist(CGRID), blist(NAGRID), blist(MGGRID)]
     # --- exhaustive sequences on the grid
     idx = 0
@@ -109,6 +227,10 @@ def cases(seed, tier):
             if n % 64 == off:
                 cl, nal, mgl = subgrid(idx); idx += 1
                 yield ["grid", w, blist(cl), blist(nal), blist(mgl)]
+    # --- the short sequences once more in random letter case
+    for w in words(ACGT, Lc, 2):
+        cl, nal, mgl = subgrid(idx); idx += 1
+        yield ["grid", randcase(r, w), blist(cl), blist(nal), blist(mgl)]
     # --- helpers on every short sequence
     for w in words(ACGT, Lm, 1):
         yield ["mt", w]
@@ -120,12 +242,12 @@ def cases(seed, tier):
     # --- random
     n = 1000 if quick else 20000
     for _ in range(n):
-        w = randcase(r, rand_seq(r, minlen=1 if r.random() < 0.03 else 2))
+        w = anycase(r, rand_seq(r, minlen=1 if r.random() < 0.03 else 2))
         c, na, mg = rand_cond(r)
         c2, na2, mg2 = rand_cond(r)
         yield ["pt", w, bits(c), bits(na), bits(mg), bits(c2), bits(na2), bits(mg2)]
     for _ in range(n):
-        w = randcase(r, rand_seq(r))
+        w = anycase(r, rand_seq(r))
         c, na, mg = rand_cond(r)
         kind = r.randrange(4)
         k = r.randint(3, 6)
@@ -138,8 +260,41 @@ def cases(seed, tier):
         else:
             yield ["grid", w, blist(axis_values(r, 1e-9, 1e-3, 2)), blist(axis_values(r, 1e-3, 1.0, 2)),
                    blist(axis_values(r, 1e-5, 0.1, 2, zero_ok=True))]
+    # --- close conditions: 1 ulp .. 5% apart on each axis (ties allowed below the resolution, decreases never)
+    nclose = 3000 if quick else 120000
+    for _ in range(nclose):
+        w = anycase(r, rand_seq(r))
+        axis, vs, (c, na, mg) = close_axis(r, r.randint(2, 4))
+        if axis == 0:
+            yield ["grid", w, blist(vs), bits(na), bits(mg)]
+        elif axis == 1:
+            yield ["grid", w, bits(c), blist(vs), bits(mg)]
+        else:
+            yield ["grid", w, bits(c), bits(na), blist(vs)]
+    for _ in range(nclose // 3):
+        w = anycase(r, rand_seq(r))
+        c, na, mg = rand_cond(r)
+        c2, na2, mg2 = close_cond(r, c, na, mg)
+        if r.random() < 0.5:
+            yield ["pt", w, bits(c), bits(na), bits(mg), bits(c2), bits(na2), bits(mg2)]
+        else:
+            yield ["pt", w, bits(c2), bits(na2), bits(mg2), bits(c), bits(na), bits(mg)]
     for _ in range(n // 2):
-        yield ["mt", randcase(r, rand_seq(r))]
+        yield ["mt", anycase(r, rand_seq(r))]
+    # --- Marmur-Doty / MeltingTemp over base compositions: (G+C count k, length m), shuffled, 9 <= m <= 200
+    #     (thorough: every one of the 20k compositions; quick: a seeded 1-in-8 sample)
+    off = r.randrange(8)
+    num = 0
+    for m in range(9, 201):
+        for k in range(m + 1):
+            num += 1
+            if quick and num % 8 != off:
+                continue
+            gc = [r.choice("GC") for _ in range(k)]
+            at = [r.choice("AT") for _ in range(m - k)]
+            w = gc + at
+            r.shuffle(w)
+            yield ["mt", anycase(r, "".join(w))]
     # --- out-of-domain probes (correspondence only): empty, other letters, concentrations outside the ranges
     for w in ["", "N", "NN", "ACGU", "acgn", "AC GT", "SW", "WS", "ANT", "A-C", "RYKM", "acgtx"]:
         yield ["mt", w]
@@ -154,18 +309,22 @@ def cases(seed, tier):
 TECHNIQUE = ("Lean 4 proof over one generic model (number type as a parameter) instantiated at the reals for the theorems and "
              "at binary64 for the differential correspondence; nearest-neighbour table and penalties regenerated from the "
              "behaviour of the compiled code and decided equal to the hand-typed duplex parameters")
-LEVEL_TEXT = ("Kernel-checked for every A/C/G/T oligo of any length in either letter case, over exact real arithmetic: the model's "
+LEVEL_TEXT = ("PROVED (kernel-checked, every A/C/G/T oligo of any length in either letter case, exact real arithmetic): the model's "
               "(Tm, dH, dS) equal the nearest-neighbour formula with indexed sums over i < N-1 (santaLucia_formula, nn_sum), the "
               "terminal term is present iff the last letter is A/T and the symmetry term / f = 1 iff the oligo is position-wise "
               "self-complementary, dH < 0 and the denominator dS + R ln(C/f) < 0 for all lengths >= 2 within C <= 1 mM, "
               "Na + 140 Mg <= 15 (regime), and Tm is STRICTLY increasing in each of the three concentrations there "
-              "(tm_mono_oligo/na/mg). Case independence, concentration independence of dH and MeltingTemp = SantaLucia(defaults) are "
-              "proved for the generic model, hence also for its binary64 instance. The parameter table and penalties are "
-              "re-extracted from the running code (through SantaLucia at 1 M Na) on every run and re-decided against the typed "
-              "duplex parameters. The step from real to float64 arithmetic is not proved: it is checked by correspondence on all "
-              "87376 sequences of length 2..8 on a grid of conditions (thorough) and random sequences to length 200.")
+              "(tm_mono_oligo/na/mg). PROVED for every number type, hence for the binary64 instance of the model: case "
+              "independence, concentration independence of dH, MeltingTemp = SantaLucia(defaults). RE-DECIDED on every run: the "
+              "parameter table and penalties re-extracted from the running code equal the typed duplex parameters. SAMPLED, not "
+              "proved: every float64 step - values within 1e-9 of the formula, and monotonicity of the float64 results in the "
+              "reading 'never decreasing for any ordered pair of conditions; strictly increasing when the log argument grows by "
+              ">= 1e-9 relative' (float64 ties below that, so the literal strict clause holds for the real formula only) - on all "
+              "87376 sequences of length 2..8 on a 4x4x3 grid (thorough), random sequences to length 200 incl. near-self-"
+              "complementary ones, and > 10^5 pairs of conditions 1 ulp .. 5% apart per thorough run.")
 LEVEL_NOTE = ("Trusted: Lean kernel + Mathlib's Real.log; the typed parameter set; extractor and correspondence harness; binary64 "
-              "and math.Log behaviour (tested at 1e-9, monotonicity tested between adjacent grid points on the real outputs).")
+              "and math.Log behaviour (tested at 1e-9; weak monotonicity tested on every ordered pair generated, strictness "
+              "above a relative separation of 1e-9).")
 
 HARNESS_BIN = "run-primers"
 EXTRACT_BINS = ["extract-primers"]
